@@ -66,11 +66,15 @@ func main() {
 		}
 	}
 	rng := vutil.Rng(6 + 1000**salt)
-	kinds := []string{"Transfer", "Transfer", "Transfer", "Deploy", "EthForward", "EthStale", "SelfDestruct2", "StaleGas", "CallForward", "CallRevert", "SelfDestruct", "CallCreate", "Stake", "Refund", "Mature"}
+	kinds := []string{"Transfer", "Transfer", "Transfer", "Deploy", "EthForward", "EthStale", "SelfDestruct2", "StaleGas", "CallForward", "CallRevert", "SelfDestruct", "CallCreate", "Stake", "Refund", "Mature", "CallExplicit", "CallExplicit"}
 	for i := 0; i < *nRandom; i++ {
 		ops := make([]ledgerops.AbsOp, 0, *length)
 		for j := 0; j < *length; j++ {
-			ops = append(ops, ledgerops.AbsOp{Op: kinds[rng.Intn(len(kinds))], A: 1 + rng.Intn(3), B: 1 + rng.Intn(3), V: rng.Intn(3)})
+			o := ledgerops.AbsOp{Op: kinds[rng.Intn(len(kinds))], A: 1 + rng.Intn(3), B: 1 + rng.Intn(3), V: rng.Intn(3)}
+			if o.Op == "CallExplicit" {
+				o.V = rng.Intn(54)
+			}
+			ops = append(ops, o)
 		}
 		run(ops, func(o ledgerops.AbsOp) (string, string) {
 			amt := ledgerops.Amounts[rng.Intn(3)]
